@@ -11,20 +11,26 @@ open Umya.Num
 section
 variable (F : NumFmt)
 
+/-- `write_to` resolves first, so a cell whose value was resolved beforehand is written the same way -/
+theorem writeTo_resolved (tbl : Table) (c : Cell F.Num) : writeTo F tbl (Cell.resolved F c) = writeTo F tbl c := by
+  unfold writeTo; rw [resolved_idem]
+
 theorem writeCells_filter : ∀ (cs : List (Cell F.Num)) (tbl : Table),
-    writeCells F tbl (cs.filter (fun c => !blankUnstyled F c)) = writeCells F tbl cs
+    writeCells F tbl ((cs.filter (fun c => !blankUnstyled F c)).map (Cell.resolved F)) = writeCells F tbl cs
   | [], _ => rfl
   | c :: cs, tbl => by
     cases hb : blankUnstyled F c with
     | true =>
-      have hw : writeTo F tbl c = some (tbl, none) := by simp [writeTo, hb]
+      have hw : writeTo F tbl c = some (tbl, none) := by
+        have hb' : blankCore F (Cell.resolved F c) = true := hb
+        simp [writeTo, writeCore, hb']
       simp only [List.filter_cons, hb, Bool.not_true, Bool.false_eq_true, if_false, writeCells, hw,
         writeCells_filter cs tbl]
       cases writeCells F tbl cs with
       | none => rfl
       | some p => rfl
     | false =>
-      simp only [List.filter_cons, hb, Bool.not_false, if_true, writeCells]
+      simp only [List.filter_cons, hb, Bool.not_false, if_true, List.map_cons, writeCells, writeTo_resolved]
       cases writeTo F tbl c with
       | none => rfl
       | some p => simp only [writeCells_filter cs p.1]
@@ -46,15 +52,33 @@ theorem writeBook_normalize (light : Bool) (sheets : List (List (Cell F.Num))) :
     writeBook F light (normalize F sheets) = writeBook F light sheets := by
   simp only [writeBook, writeSheets_normalize]
 
+/-- a kept cell stays kept once resolved, and resolving it again changes nothing -/
+theorem normSheet_idem (s : List (Cell F.Num)) :
+    (((s.filter (fun c => !blankUnstyled F c)).map (Cell.resolved F)).filter (fun c => !blankUnstyled F c)).map (Cell.resolved F)
+      = (s.filter (fun c => !blankUnstyled F c)).map (Cell.resolved F) := by
+  induction s with
+  | nil => rfl
+  | cons c cs ih =>
+    cases hb : blankUnstyled F c with
+    | true => simpa [List.filter_cons, hb] using ih
+    | false =>
+      have hb' : blankUnstyled F (Cell.resolved F c) = false := by rw [blankUnstyled_resolved]; exact hb
+      simp only [List.filter_cons, hb, hb', Bool.not_false, if_true, List.map_cons, resolved_idem]
+      rw [ih]
+
 theorem normalize_idem' (sheets : List (List (Cell F.Num))) : normalize F (normalize F sheets) = normalize F sheets := by
-  simp [normalize, List.map_map, Function.comp_def, List.filter_filter]
+  simp only [normalize, List.map_map]
+  apply List.map_congr_left
+  intro s _
+  exact normSheet_idem F s
 
 theorem normalize_cellOK (sheets : List (List (Cell F.Num))) (h : ∀ s ∈ sheets, ∀ c ∈ s, cellOK F c = true) :
     ∀ s ∈ normalize F sheets, ∀ c ∈ s, cellOK F c = true := by
   intro s hs c hc
   simp only [normalize, List.mem_map] at hs
   obtain ⟨s0, hs0, rfl⟩ := hs
-  exact h s0 hs0 c (List.mem_filter.1 hc).1
+  obtain ⟨c0, hc0, rfl⟩ := List.mem_map.1 hc
+  exact cellOK_resolved F (h s0 hs0 c0 (List.mem_filter.1 hc0).1)
 
 /-- one save + load of all cells of a workbook -/
 def cellsRs (light : Bool) (sheets : List (List (Cell F.Num))) : Option (List (List (Cell F.Num))) :=
@@ -99,10 +123,27 @@ theorem filter_editSheet (k : Nat × Nat) (f : Cell F.Num → Cell F.Num)
     · cases hb : blankUnstyled F c <;> simp [List.filter_cons, hk, hf, hb, ih]
     · cases hb : blankUnstyled F c <;> simp [List.filter_cons, hk, hb, ih]
 
-/-- saving and loading commutes with an edit that keeps the cell non-blank (or blank): the edited cell is the only
-    thing that differs, before and after -/
+/-- an edit that commutes with resolving (it sets a definite value / formula / style, or leaves the value alone)
+    can be applied before or after the cells are resolved: `resolved` keeps the coordinate the edit is keyed by -/
+theorem map_resolved_editSheet (k : Nat × Nat) (f : Cell F.Num → Cell F.Num)
+    (hr : ∀ c, Cell.resolved F (f c) = f (Cell.resolved F c)) (s : List (Cell F.Num)) :
+    (editSheet F k f s).map (Cell.resolved F) = editSheet F k f (s.map (Cell.resolved F)) := by
+  simp only [editSheet, List.map_map]
+  apply List.map_congr_left
+  intro c _
+  show Cell.resolved F (if (c.row, c.col) = k then f c else c)
+    = if ((Cell.resolved F c).row, (Cell.resolved F c).col) = k then f (Cell.resolved F c) else Cell.resolved F c
+  have e : ((Cell.resolved F c).row, (Cell.resolved F c).col) = (c.row, c.col) := rfl
+  rw [e]
+  by_cases hk : (c.row, c.col) = k
+  · rw [if_pos hk, if_pos hk, hr]
+  · rw [if_neg hk, if_neg hk]
+
+/-- saving and loading commutes with an edit that keeps the cell non-blank (or blank) and commutes with resolving:
+    the edited cell is the only thing that differs, before and after -/
 theorem normalize_editCells (cells : List (List (Cell F.Num))) (i : Nat) (k : Nat × Nat) (f : Cell F.Num → Cell F.Num)
-    (hf : ∀ c, blankUnstyled F (f c) = blankUnstyled F c) :
+    (hf : ∀ c, blankUnstyled F (f c) = blankUnstyled F c)
+    (hr : ∀ c, Cell.resolved F (f c) = f (Cell.resolved F c)) :
     normalize F (editCells F cells i k f) = editCells F (normalize F cells) i k f := by
   unfold editCells
   cases h : cells[i]? with
@@ -110,9 +151,10 @@ theorem normalize_editCells (cells : List (List (Cell F.Num))) (i : Nat) (k : Na
     have : (normalize F cells)[i]? = none := by simp [normalize, h]
     simp [this]
   | some s =>
-    have : (normalize F cells)[i]? = some (s.filter (fun c => !blankUnstyled F c)) := by simp [normalize, h]
+    have : (normalize F cells)[i]? = some ((s.filter (fun c => !blankUnstyled F c)).map (Cell.resolved F)) := by
+      simp [normalize, h]
     simp only [this]
-    simp only [normalize, List.map_set, filter_editSheet F k f hf]
+    simp only [normalize, List.map_set, filter_editSheet F k f hf, map_resolved_editSheet F k f hr]
 
 /-- the other sheets are untouched by the edit -/
 theorem editCells_other (cells : List (List (Cell F.Num))) (i i' : Nat) (k : Nat × Nat) (f : Cell F.Num → Cell F.Num)
